@@ -38,25 +38,23 @@ deriving Repr, DecidableEq
 
 variable {b h : Nat}
 
+/-- the schedule loop shared by `set_tk1`, `xor_tk1`, `set_tk2`, `set_tk3`:
+`for (index = 0; index < rounds; ++index)` updating `schedule[index]` and the running state -/
+def schedFold {α σ : Type} (step : α → σ → α × σ) (d : α) (r : Nat) (sched : List α) (s : σ) : List α × σ :=
+  (List.range r).foldl (fun acc i => let p := step (acc.1.getD i d) acc.2; (acc.1.set i p.1, p.2)) (sched, s)
+
 /-- `skinnyN_set_tk1`: the key is a full block here (`set_key_inner` never passes less) -/
 def setTk1 (o : SkinnyOps b h) (ks : KeySched h) (key : Bytes) (tweaked : Bool) : KeySched h :=
-  let (tk, rc) := o.tk1Load (image b key)
+  let ld := o.tk1Load (image b key)
   let step := if tweaked then o.tk1Step1 else o.tk1Step0
-  let r := (List.range ks.rounds).foldl
-    (fun (acc : List (BitVec h) × BitVec b × BitVec 8) i =>
-      let (e, tk', rc') := step acc.2.1 acc.2.2
-      (acc.1.set i e, tk', rc'))
-    (ks.sched, tk, rc)
+  let r := schedFold (fun (_ : BitVec h) (s : BitVec b × BitVec 8) => let p := step s.1 s.2; (p.1, (p.2.1, p.2.2))) 0
+    ks.rounds ks.sched (ld.1, ld.2)
   { ks with sched := r.1 }
 
 /-- `skinnyN_xor_tk1` -/
 def xorTk1 (o : SkinnyOps b h) (ks : KeySched h) (key : Bytes) : KeySched h :=
   let tk := o.xorTk1Load (image b key)
-  let r := (List.range ks.rounds).foldl
-    (fun (acc : List (BitVec h) × BitVec b) i =>
-      let (e, tk') := o.xorTk1Step (acc.1.getD i 0) acc.2
-      (acc.1.set i e, tk'))
-    (ks.sched, tk)
+  let r := schedFold o.xorTk1Step 0 ks.rounds ks.sched tk
   { ks with sched := r.1 }
 
 /-- `skinnyN_set_tk2` / `_tk3` (`which = false` / `true`); `junk` is the prior content of the
@@ -65,11 +63,7 @@ def setTkN (o : SkinnyOps b h) (which : Bool) (ks : KeySched h) (key : Bytes) (k
     (junk : BitVec b) : KeySched h :=
   let tk := (if which then o.tk3Load else o.tk2Load) keySize junk (image b (key.take keySize))
   let step := if which then o.tk3Step else o.tk2Step
-  let r := (List.range ks.rounds).foldl
-    (fun (acc : List (BitVec h) × BitVec b) i =>
-      let (e, tk') := step (acc.1.getD i 0) acc.2
-      (acc.1.set i e, tk'))
-    (ks.sched, tk)
+  let r := schedFold step 0 ks.rounds ks.sched tk
   { ks with sched := r.1 }
 
 /-- `skinnyN_set_key_inner` -/
